@@ -149,9 +149,13 @@ func newInstDup(name string, o instOpts, dupUp, dupSet bool) (*inst, error) {
 			cfg.Metrics.Addr = fmt.Sprintf("127.0.0.1:%d", in.ports["metrics"])
 		}
 		for _, k := range o.listeners {
-			p := freePort(k == "udp" || k == "quic" || k == "udpmr")
+			p := freePort(k == "udp" || k == "quic" || k == "udpmr" || k == "udpth")
 			in.ports[k] = p
 			sc := router.ServerConfig{Tag: k, Protocol: k, Listen: fmt.Sprintf("127.0.0.1:%d", p)}
+			if k == "udpth" { // UDP listener with several reader threads (one SO_REUSEPORT socket each)
+				sc.Protocol = "udp"
+				sc.Udp.Threads = 3
+			}
 			if k == "udpmr" { // wildcard UDP listener that answers from the address the query was sent to
 				sc.Protocol, sc.Listen = "udp", fmt.Sprintf("0.0.0.0:%d", p)
 				sc.Udp.MultiRoutes = true
@@ -678,7 +682,7 @@ func (in *inst) roundTrip(lst, src string, w []byte, wait time.Duration, hdr map
 	addr := fmt.Sprintf("127.0.0.1:%d", port)
 	deadline := time.Now().Add(wait)
 	switch lst {
-	case "udp", "udpmr":
+	case "udp", "udpmr", "udpth":
 		var la *net.UDPAddr
 		if src != "" && lst == "udp" {
 			la = &net.UDPAddr{IP: net.ParseIP(src)}
